@@ -16,8 +16,18 @@ def slot_functions(prog, slots):
     return out
 
 
+def has_constr_signature(f):
+    """asn_constr_check_f: int (const asn_TYPE_descriptor_t *, const void *, asn_app_constraint_failed_f *, void *)"""
+    pt = [p["type"].replace("struct asn_TYPE_descriptor_s", "asn_TYPE_descriptor_t") for p in f.params]
+    return f.ret_type == "int" and len(pt) == 4 and "asn_TYPE_descriptor_t" in pt[0] and pt[1].startswith("const void") \
+        and "asn_app_constraint_failed_f" in pt[2] and pt[3].startswith("void")
+
+
 def constraint_functions(prog):
     out = set()
+    for f in prog.funcs.values():
+        if has_constr_signature(f):
+            out.add(f.key)
     for n in prog.field_funcs.get("general_constraints", ()):
         f = prog.func(n)
         if f is not None:
